@@ -75,6 +75,12 @@ func genStorePlan(class string) func(r *prng) *plan {
 				return int64(r.intn(49_000))
 			}
 		}
+		if r.chance(6) {
+			// the first put is larger than the whole capacity: the pruning pass it triggers has to drop
+			// everything the store holds, with the usage figure still exact
+			p.Cfg["big"] = 1
+			p.Ops = append(p.Ops, opSpec{K: "put", N: []int64{int64(r.intn(nids)), int64(1_000_000 + r.intn(200_000)), int64(r.u64() >> 1)}})
+		}
 		for i := 0; i < nops; i++ {
 			switch {
 			case class == "par" && r.chance(25):
